@@ -72,4 +72,9 @@ CHECKS = {
   "text": "About 590 structures x 2-4 relations per quick run, 1.4e4 thorough. Exploration level over a continuous group and a combinatorial structure space; edge classes (moving parent, |beta| up to 0.95, half-integer spins, multi-topology interference) are generated deliberately.",
   "note": "Trusted: numpy Lorentz transformations (vlib/kin.py), the structure grammar (vlib/gen.py). Known finding: identical-particle symmetrisation with spinning final states is frame dependent (recorded, pinned case). Parity clause asserted for all 3-body and parity-conserving 4-body structures.",
  },
+ "C02": {
+  "technique": "differential / metamorphic property-based testing: the same generated structure (>=2 chains, spinning finals) is rebuilt under permuted chain order, reversed key order and the data options align_ref / random_z / center_mass / only_left_angle, parameters copied by name, densities compared on the same events (parent at rest and moving)",
+  "text": "About 350 structures x 3-6 variants per quick run (6400 thorough). Exploration level; the option product and chain permutations are sampled by the strategy.",
+  "note": "Trusted: the structure grammar; parameters are transferred by name. Known finding (pinned, excluded from search and counted): align_ref=center_mass with center_mass=False and a moving parent.",
+ },
 }
